@@ -10,7 +10,8 @@ Inductive impl_outcome :=
 | IErr                (* any error other than TooManyRequestError *)
 | ITooMany (s : Z)    (* *TooManyRequestError{AfterSecond: s} *)
 | IPanic
-| INotRun.            (* the call never returned (harness problem) *)
+| INotRun             (* the call was never started / not finished by the schedule *)
+| INeverReturned.     (* Call was still blocked when the watchdog fired *)
 
 Record C19_case := mkC19 {
   k_etag : bool;
@@ -44,6 +45,7 @@ Definition call_verdict (cfg : config) (c0 : cache) (sc : script) (st : state) (
       match io with
       | IPanic => ([("panic", false)], [], true)
       | INotRun => ([], [("call-did-not-return", false)], true)
+      | INeverReturned => ([("timeout-not-enforced", false)], [], true)
       | IOk id =>
           match find_body bodies id with
           | Some b => judge (OkBody b)
@@ -90,4 +92,65 @@ Definition C19_check (c : C19_case) : verdict :=
           if forallb (fun p => final_eqb (snd p) (st_cache st (fst p))) (k_final c)
           then OK else DIVERGE "final-cache"
       end
+  end.
+
+(* ------------------------------------------------------------------ *)
+(* Timed cases: the REAL executor built by NewWebhookExecutor with a short
+   webhook timeout talks to a real local HTTP server that sends its headers
+   and its body at scripted times.  Observed: the outcome and whether Call
+   had returned within timeout + generous slack (one-sided bound). *)
+Record C19_timed := mkC19T {
+  tt_etag : bool;
+  tt_strict : bool;
+  tt_timeout_ms : Z;
+  tt_headers_ms : option Z;     (* headers sent this long after the request; None = never *)
+  tt_done_ms : option Z;        (* last body byte sent; None = never *)
+  tt_resp : response;           (* what the backend sends *)
+  tt_impl : impl_outcome;
+  tt_in_bound : bool
+}.
+
+(* the model side of the clause: an exchange that is not over in time is an error *)
+Lemma timed_model_is_error : forall cfg c k sent t x r,
+  exchange_in_time t x r = false -> snd (finish cfg c k sent (timed_reply t x r)) = Err.
+Proof.
+  intros cfg c k sent t x r H. unfold exchange_in_time in H. unfold timed_reply.
+  destruct (within t (x_headers_ms x)) eqn:Eh; simpl in *; [|reflexivity].
+  destruct (r_status r =? 429) eqn:E429; simpl in H; [discriminate H|].
+  rewrite H. unfold finish. simpl. rewrite E429. reflexivity.
+Qed.
+
+(* scripted times within a factor 2 of the timeout are not judged *)
+Definition too_close (timeout_ms : Z) (t : option Z) : bool :=
+  match t with
+  | Some v => (timeout_ms <? 2 * v) && (v <? 2 * timeout_ms)
+  | None => false
+  end.
+
+Definition C19_timed_check (c : C19_timed) : verdict :=
+  let cfg := mkCfg (tt_etag c) (tt_strict c) in
+  let x := mkExchange (tt_headers_ms c) (tt_done_ms c) in
+  let t := tt_timeout_ms c in
+  let r := tt_resp c in
+  if too_close t (tt_headers_ms c) || too_close t (tt_done_ms c)
+  then SKIP "exchange-too-close-to-the-timeout" else
+  let rp := timed_reply t x r in
+  match st_calls (one_call cfg empty_cache 7 rp) 0 with
+  | PDone _ mo =>
+      let exceeded := negb (exchange_in_time t x r) in
+      let judge (o : outcome) :=
+        if negb (timeout_ok t x r o (tt_in_bound c)) then PROPFAIL "timeout-not-enforced" else
+        match first_fail (call_clauses cfg [] "" rp o) with
+        | Some n => PROPFAIL n
+        | None => if outcome_eqb o mo then OK else DIVERGE "outcome"
+        end in
+      match tt_impl c with
+      | IPanic => PROPFAIL "panic"
+      | INeverReturned => if exceeded then PROPFAIL "timeout-not-enforced" else DIVERGE "call-did-not-return"
+      | INotRun => DIVERGE "call-did-not-run"
+      | IOk id => if id =? b_id (r_body r) then judge (OkBody (r_body r)) else PROPFAIL "unknown-body-returned"
+      | IErr => judge Err
+      | ITooMany s => judge (TooMany s)
+      end
+  | _ => SKIP "model-call-not-finished"
   end.
